@@ -483,7 +483,12 @@ impl Expression {
                 PathAnalysisState::NotInPath
             }
             Expression::LitFloat { value: x, .. } => {
-                write!(value, "{}", x)?;
+                if x.is_infinite() {
+                    // (a literal beyond the float range, e.g. `1e999`)
+                    write!(value, "Infinity")?;
+                } else {
+                    write!(value, "{}", x)?;
+                }
                 PathAnalysisState::NotInPath
             }
             Expression::LitBool { value: x, .. } => {
